@@ -119,6 +119,7 @@ func runC02(c *Ctx) {
 	}
 	if c.Thorough() { // after the quick families
 		fams = append(fams, []fam{
+			{"N2.F2.S1", mixed, vrt.Budget{F: 2, S: 1, Total: 3}, cut},
 			{"one.F4", one, vrt.Budget{F: 4}, cutw},
 			{"N2.F3", mixed, vrt.Budget{F: 3}, cut},
 			{"N3.F2", c02Workloads(3), vrt.Budget{F: 2}, cut},
@@ -290,6 +291,7 @@ func runC03(c *Ctx) {
 	quickN := len(fams) // the thorough tier runs the quick families first, unchanged, then the deeper ones
 	if c.Thorough() {
 		fams = append(fams, []fam{
+			{"N2.F2.S1", 2, []string{"p1", "p2", "sub"}, []byte{'N', 'O', 'H'}, vrt.Budget{F: 2, S: 1, Total: 3}, cl},
 			{"N2.F2.all", 2, []string{"p0", "p1", "p2", "sub", "unsub"}, []byte{'B', 'S', 'N', 'O', 'H'}, vrt.Budget{F: 2}, cut},
 			{"N3.F2", 3, []string{"p0", "p1", "p2", "sub"}, []byte{'B', 'N', 'H'}, vrt.Budget{F: 2}, cl},
 			{"N3.F3.pub", 3, []string{"p1", "p2"}, []byte{'N'}, vrt.Budget{F: 3}, cl},
@@ -414,6 +416,7 @@ func runC12(c *Ctx) {
 	}
 	if c.Thorough() { // after the quick families
 		fams = append(fams, []fam{
+			{"N2.F2.S1", two, vrt.Budget{F: 2, S: 1, Total: 3}, cut},
 			{"repeat-pubrec.N2.F2", two, vrt.Budget{F: 2}, cut},
 			{"manual.one.F3", one, vrt.Budget{F: 3}, cut},
 			{"manual.N2.F2", two, vrt.Budget{F: 2}, cut},
